@@ -527,6 +527,10 @@ def handle(job: dict) -> dict:
                 res["cli_stderr"] = p_.stderr if len(p_.stderr) < 4000 else p_.stderr[:1500] + "\n...\n" + p_.stderr[-2000:]
                 res["cli_stdout"] = p_.stdout[:500] + p_.stdout[-500:]
                 res["traceback"] = "Traceback (most recent call last)" in p_.stderr
+                # what a caller of the real process can tell: exit status and whether anything was reported
+                res["accepted"] = p_.returncode == 0 and not res["traceback"]
+                out_ = (p_.stdout or "") + (p_.stderr or "")
+                res["diags"] = [{"level": "ERROR" if "Error(s) encountered" in out_ else "WARNING", "header": "(process output)", "detail": out_[-600:], "data": None}] if ("Warning(s) encountered" in out_ or "Error(s) encountered" in out_) else []
                 raise _SubprocessDone()
             r = CliRunner().invoke(opc_cli.app, args, catch_exceptions=True)
             res["cli_exit"] = r.exit_code
